@@ -961,6 +961,7 @@ def s09_ts_add_months(E):
     part and the (negated) interval is a counterexample."""
     u = E.int_in("u", "i64", TS_MIN, TS_MAX)
     k = E.int_in("k", "i32", -YM_MAX, YM_MAX)
+    E.hints += [k == 12, u >= -30000 * D, u <= 50000 * D]
     F = z3.Function("ym_days", z3.IntSort(), z3.IntSort(), z3.IntSort())
     G = z3.Function("ym_ok", z3.IntSort(), z3.IntSort(), z3.BoolSort())
     H = z3.Function("ym_err", z3.IntSort(), z3.IntSort(), z3.IntSort())
